@@ -27,6 +27,11 @@ fn gen_case(rng: &mut impl Rng, m: usize, kind: usize) -> Case {
         2 => rng.gen_range(-amp / 4..=amp / 4) * 4,        // integers
         _ => if rng.gen_bool(0.3) { rng.gen_range(0..=amp) } else { rng.gen_range(-amp..=0) },
     }).collect()).collect();
+    let mut cells: Vec<Vec<i64>> = cells;
+    if kind % 5 == 3 && m >= 2 {
+        // one or two constant (zero-range) rows with a non-zero value, as user-built matrices may have
+        for _ in 0..(1 + kind % 2) { let i = rng.gen_range(0..m); let c = [-6i64, -1, 3, 8][rng.gen_range(0..4)]; cells[i] = vec![c; 4]; }
+    }
     let (bn, bd) = match kind % 4 {
         0 => (vec![1, 1, 1, 1], 4),
         1 => (vec![4, 1, 1, 2], 8),
@@ -165,9 +170,15 @@ pub fn record_c12(rec: &mut Recorder, seed: u64, thorough: bool) {
         for _ in 0..(if thorough { 10 } else { 6 }) { let a = att[rng.gen_range(0..att.len())]; qs.push(2 * a); qs.push(2 * a + 1); }
         qs.sort(); qs.dedup();
         let pssm = build(&c);
+        // every other matrix: ONE TfmPvalue object answers all the queries in sequence (state left behind by a query -
+        // in particular one that stopped at the first granularity - must not leak into the next)
+        let shared = it % 2 == 0;
+        let mut shared_t = TfmPvalue::new(&pssm);
+        if shared { qs.reverse(); qs.rotate_left(it % 3); }
         for s8 in qs {
             let r = guarded(|| {
-                let mut t = TfmPvalue::new(&pssm);
+                let mut fresh_t = TfmPvalue::new(&pssm);
+                let t = if shared { &mut shared_t } else { &mut fresh_t };
                 let mut iters = Vec::new();
                 for (k, it) in t.approximate_pvalue(s8 as f64 / u as f64).enumerate() {
                     let (a, ea) = num(*it.range.start(), dn);
@@ -180,6 +191,7 @@ pub fn record_c12(rec: &mut Recorder, seed: u64, thorough: bool) {
             });
             rec.reset();
             rec.class("tfm_pvalue");
+            if shared { rec.class("reused_TfmPvalue_object"); }
             if c.g == 16 { rec.class("fine_grid_matrix"); }
             rec.class(if s8 < 2 * lo { "below_min" } else if s8 > 2 * hi { "above_max" } else if s8 % 2 == 0 { "on_grid" } else { "just_above_grid" });
             rec.nontrivial(&(c.cells.clone(), c.bn.clone(), s8));
@@ -207,11 +219,16 @@ pub fn record_c13(rec: &mut Recorder, seed: u64, thorough: bool) {
             let nn = tl[j].1;
             if nn > 0 && nn < dn { ps.push((nn, 0, 1)); ps.push((2 * nn + 1, 0, 2)); if nn > 1 { ps.push((2 * nn - 1, 0, 2)); } }
         }
-        for &(pn, pd, pc) in ps.iter() {
+        let shared = it % 2 == 0;
+        let mut shared_t = TfmPvalue::new(&pssm);
+        for (qi, &(pn, pd, pc)) in ps.iter().enumerate() {
             let p = if pc > 0 { pn as f64 / (pc * dn) as f64 } else { pn as f64 / pd as f64 };
             if !(p > 0.0 && p < 1.0) { continue; }
+            // on a shared object, every third query is preceded by an abandoned one (only its first step consumed)
+            if shared && qi % 3 == 1 { let _ = guarded(|| { let _ = shared_t.approximate_score(p).next(); }); }
             let r = guarded(|| {
-                let mut t = TfmPvalue::new(&pssm);
+                let mut fresh_t = TfmPvalue::new(&pssm);
+                let t = if shared { &mut shared_t } else { &mut fresh_t };
                 let mut iters = Vec::new();
                 for (k, it) in t.approximate_score(p).enumerate() {
                     let gk = (1.0 / it.granularity).round() as i64;
@@ -225,6 +242,7 @@ pub fn record_c13(rec: &mut Recorder, seed: u64, thorough: bool) {
             rec.reset();
             rec.class("tfm_score");
             rec.class(if pc > 0 { "p_attainable_tail_or_midpoint" } else { "p_small_fraction" });
+            if shared { rec.class("reused_TfmPvalue_object"); }
             if c.g == 16 { rec.class("fine_grid_matrix"); }
             rec.nontrivial(&(c.cells.clone(), c.bn.clone(), pn, pd, pc));
             let mut e = json!({"ev":"tfm_score","K":5,"G":c.g,"pssm":pssm_json(&c),"bn":bn5(&c),"bd":c.bd,"den":dn,"pn":pn,"pd":pd.max(1),"pc":pc});
